@@ -99,7 +99,7 @@ func checkLikeTranslator(c *core.Ctx, t *fnTable, ids map[string]int64) {
 		runeOf[n] = r
 	}
 	sortStrings(classes)
-	in := &absint.Interp{Info: t.info, Prog: c.Prog, MaxPaths: 8000}
+	in := withMaxPaths(newLitInterp(c.Prog, t.info, "functions"), 8000)
 	in.Hooks.Loop = func(st *absint.State, loop ast.Stmt) *absint.LoopSpec {
 		return &absint.LoopSpec{Cases: classes, RefStep: func(ref, cs string) string {
 			if strings.HasPrefix(ref, "err") {
@@ -306,7 +306,7 @@ func checkLikeTranslator(c *core.Ctx, t *fnTable, ids map[string]int64) {
 	c.Decide(bad == "", "LIKE", key+"/translator", tr.Pos(), len(outs), fmt.Sprintf("%d rune classes × 2 states agree with the reference translation; anchored; s flag", len(classes)), bad)
 
 	// the closure matches values[0] against the translation of values[1]
-	in2 := &absint.Interp{Info: t.info, Prog: c.Prog}
+	in2 := newLitInterp(c.Prog, t.info, "functions")
 	trObj := ""
 	in2.Hooks.Call = chainCall(func(st *absint.State, call *ast.CallExpr, callee string, recv absint.Val, args []absint.Val) (absint.Val, bool) {
 		if strings.HasPrefix(callee, "value:") && len(args) == 1 && callee != "value:needsEscaping" {
@@ -348,7 +348,7 @@ func checkRegexOperators(c *core.Ctx, t *fnTable, ids map[string]int64) {
 		}
 		for _, cached := range []bool{false, true} {
 			cached := cached
-			in := &absint.Interp{Info: t.info, Prog: c.Prog}
+			in := newLitInterp(c.Prog, t.info, "functions")
 			getKey, setKey, compiled, subject := "", "", "", ""
 			in.Hooks.Assert = assertOK
 			in.Hooks.Call = chainCall(func(st *absint.State, call *ast.CallExpr, callee string, recv absint.Val, args []absint.Val) (absint.Val, bool) {
